@@ -401,6 +401,31 @@ func (c *Ctx) build(t *Term) interface{} {
 	panic("unknown term kind " + t.K)
 }
 
+// SpecOfValue returns the term behind an object operand (nil if v is not one).
+func SpecOfValue(v interface{}) (*Ctx, *Term) {
+	rv := reflect.ValueOf(v)
+	if !rv.IsValid() || rv.Kind() != reflect.Int {
+		return nil, nil
+	}
+	if s, ok := specs.Load(int(rv.Int())); ok {
+		sp := s.(*objSpec)
+		return sp.c, sp.t
+	}
+	return nil, nil
+}
+
+// LogCall records a user-level call in the context's log (used by the error hook).
+func (c *Ctx) LogCall(m string, t *Term, verb rune) { c.call(m, t, verb) }
+
+// HookTerms are the operands the "print" / "panic" hooks of Printer!HookScript use.
+func HookTerms() []*Term {
+	return []*Term{
+		{K: "string", ID: 900, B: []int{PTok + 900}},
+		{K: "safe", ID: 901, Xs: []*Term{{K: "int", ID: 902, N: 7}}},
+		{K: "string", ID: 903, B: []int{PTok + 903}},
+	}
+}
+
 // Release drops the object specs of this context.
 func (c *Ctx) Release() {
 	for _, v := range c.vals {
@@ -459,7 +484,23 @@ func (c *Ctx) RenderToken(e RtEntry) string {
 	verb := rune(e.V)
 	switch e.Rk {
 	case "val":
-		return fmt.Sprintf(directive(e, verb, false), c.Plain(t))
+		v := c.Plain(t)
+		if verb == 'v' && e.M&(1|4) != 0 {
+			// 'v' reached with the plain plus/sharp flags (inside a bad-verb or panic report of another
+			// verb): fmtInteger/fmtFloat/fmtS are entered with verb v but f.plus / f.sharp set, which no
+			// %v directive can express; the equivalent directive uses the kind's own verb
+			switch v.(type) {
+			case int, uint:
+				verb = 'd'
+			case float64:
+				verb = 'g'
+			case string:
+				verb = 's'
+			case bool:
+				verb = 't'
+			}
+		}
+		return fmt.Sprintf(directive(e, verb, false), v)
 	case "ret":
 		if t.K == "safe" {
 			return fmt.Sprintf(directive(e, verb, false), fmt.Sprintf("%v", c.Value(t.Xs[0])))
